@@ -65,3 +65,4 @@ pub fn mmapper_ensure_mapped(start: crate::util::Address, pages: usize) -> bool 
 pub fn mmapper_is_mapped(addr: crate::util::Address) -> bool {
     crate::MMAPPER.is_mapped_address(addr)
 }
+pub mod c35;
